@@ -162,14 +162,13 @@ func c02Opts(tier string, spec world.Spec) hOpts {
 		GoodIdP: []world.Answer{world.Honest, {Name: "honest-aud-array-rsa", AudArray: true, RSA: true}, {Name: "honest-refresh-omits-id", NoIDToken: true},
 			{Name: "honest-no-expires-in", NoExpiresIn: true}, {Name: "honest-access-token-of-3s", AccessLife: 3}}}
 	if tier == "thorough" {
-		o.MaxDev = 2
 		o.MaxSessions = 3
 	}
 	return o
 }
 
 func c02Run(run *ev.Run) {
-	run.Rule = "BFS over login/refresh histories in which the provider answers the token request of a check either honestly (5 shapes: plain, aud array + RSA, refresh without id_token, no expires_in, access token of 3 s) or with one element of a 37-element adversarial ID-token grammar (deviation; <=1 per history quick, <=2 thorough), for several header/preamble configurations; every SetTokenResponse is re-validated by an independent stdlib verifier and every OK's upstream headers are compared with the bound tokens; class = (path, answer, verdict)"
+	run.Rule = "BFS over login/refresh histories in which the provider answers the token request of a check either honestly (5 shapes: plain, aud array + RSA, refresh without id_token, no expires_in, access token of 3 s) or with one element of a 37-element adversarial ID-token grammar (deviation; <=1 per history; thorough adds <=2 per history at depth 5 for the first two configurations), for several header/preamble configurations; every SetTokenResponse is re-validated by an independent stdlib verifier and every OK's upstream headers are compared with the bound tokens; class = (path, answer, verdict)"
 	run.Assumptions = []string{
 		"grammar elements are unambiguously invalid; validly signed tokens in non-compact serialisation and surrounding whitespace are not in the grammar",
 		"nonce elements are deviations on the login path only (statement: nonce 'at login'); on refresh they are expected to be tolerated and are still checked for signature and audience",
@@ -184,6 +183,19 @@ func c02Run(run *ev.Run) {
 		m := c02Opts(run.Tier, spec).model(c02Monitor(run, spec))
 		m.MaxDepth = depth
 		st := seqx.Explore(run, m)
+		if run.Tier == "thorough" && i < 2 {
+			// pairs of adversarial answers in one history, two levels less deep
+			o2 := c02Opts(run.Tier, spec)
+			o2.MaxDev = 2
+			m2 := o2.model(c02Monitor(run, spec))
+			m2.MaxDepth = depth - 2
+			st2 := seqx.Explore(run, m2)
+			st.States += st2.States
+			st.Transitions += st2.Transitions
+			st.Histories += st2.Histories
+			st.Replayed += st2.Replayed
+			st.Complete = st.Complete && st2.Complete
+		}
 		total.States += st.States
 		total.Transitions += st.Transitions
 		total.Histories += st.Histories
@@ -202,7 +214,11 @@ func c02Run(run *ev.Run) {
 	}
 	for _, st := range []string{"memory", "redis"} {
 		for _, ek := range evils {
-			cs := schedx.Explore(run, "C02", c02Scenario(st, ek, b))
+			bb := b
+			if st == "redis" && b < 0 {
+				bb = 3 // every Redis command is a scheduling point: unbounded interleavings are out of reach there
+			}
+			cs := schedx.Explore(run, "C02", c02Scenario(st, ek, bb))
 			total.Histories += cs.Schedules
 			total.Transitions += cs.Points
 			total.States += int64(len(cs.Distinct))
@@ -211,6 +227,22 @@ func c02Run(run *ev.Run) {
 			}
 		}
 	}
+	// server level: two filters whose providers coincide in all but a port / a discovery selector - a filter's code is
+	// exchanged at ITS provider and the ID token it binds and forwards was issued by ITS provider
+	pairs := srvRunPairs(run, func(o srvPairObs, replay any) {
+		if o.LoginErr != "" {
+			run.Violation("C02 login-does-not-complete server-pair", fmt.Sprintf("%s, filter %s used first: login at filter %s fails: %s (token requests per realm %v)", o.Pair, o.First, o.Second.Name, o.LoginErr, o.TokenReqsAt), replay)
+			return
+		}
+		if o.TokenReqsAt[o.Second.Realm] == 0 {
+			run.Violation("C02 code-exchanged-at-another-filters-provider", fmt.Sprintf("%s, filter %s used first: the login at filter %s completed without a token request reaching its own provider (requests per realm %v)", o.Pair, o.First, o.Second.Name, o.TokenReqsAt), replay)
+		}
+		if o.ProbeOK && o.IDIssuer != o.Second.Realm {
+			run.Violation("C02 forwarded-token-of-another-filters-provider", fmt.Sprintf("%s, filter %s used first: filter %s forwards an ID token issued by %q", o.Pair, o.First, o.Second.Name, o.IDIssuer), replay)
+		}
+	})
+	total.Histories += pairs
+	run.Extra["server_level_pairs"] = pairs
 	run.States, run.Transitions, run.Traces, run.Evals = total.States, total.Transitions, total.Histories, total.Transitions
 	run.Extra["replayed_events"] = total.Replayed
 	run.Extra["depth"] = depth
